@@ -522,6 +522,10 @@ class Parser:
         if path_tok := (self._strip_path_prefix(parts[0])):
             parts[0] = path_tok
 
+        bytes_parts = [self._is_bytes_literal(p) for p in parts]
+        if any(bytes_parts) and not all(bytes_parts):
+            self.raise_syntax_error_known_range("cannot mix bytes and nonbytes literals", parts[0], parts[-1])
+
         for p in parts:
             if isinstance(p, ast.JoinedStr):
                 seen_joined = True
@@ -568,6 +572,14 @@ class Parser:
         if path_tok:
             self._path_token = path_tok
         return ast.JoinedStr(values=b, **locs)
+
+    @staticmethod
+    def _is_bytes_literal(part: TokenInfo | ast.expr) -> bool:
+        if not isinstance(part, TokenInfo):
+            return False
+        text = part.string
+        idx = min((i for i in (text.find("'"), text.find('"')) if i >= 0), default=0)
+        return "b" in text[:idx].lower()
 
     @staticmethod
     def _strip_path_prefix(token: TokenInfo | ast.expr) -> TokenInfo | None:
